@@ -3,6 +3,7 @@ package c05
 
 import (
 	"fmt"
+	"github.com/scrapli/scrapligo/response"
 	"strings"
 	"testing"
 	"time"
@@ -112,7 +113,15 @@ func runOne(w *sched.W, op cm.OpDef, st setting, maxChunk int, stall int, b sche
 			if op.Recovery && o.err != nil && stall >= 0 && o.cleanLine && st.override != 0 {
 				c.Tr.Release()
 				o.recRan = true
-				r, err := c.G.SendCommand(cm.NextCmd)
+				var r *response.Response
+				var err error
+				if c.N != nil {
+					// network driver: the command must also run at the default desired level, whatever
+					// level the interrupted operation left the device in
+					r, err = c.N.SendCommand(cm.NextCmd)
+				} else {
+					r, err = c.G.SendCommand(cm.NextCmd)
+				}
 				o.recErr = err
 				if r != nil {
 					o.recRes = r.Result
@@ -205,7 +214,7 @@ func judge(e *sched.Env, op cm.OpDef, st setting, stall int, o *outcome, hung st
 		return
 	}
 	lo, hi := T, T
-	if op.ErrClass == "privilege|timeout" || op.Name == "network.SendConfigs" {
+	if op.ErrClass == "privilege|timeout" || strings.HasPrefix(op.Name, "network.SendConfigs") {
 		// internal steps (prompt fetch, privilege change) run on the connection-wide timeout
 		if tConn < lo {
 			lo = tConn
@@ -218,7 +227,7 @@ func judge(e *sched.Env, op cm.OpDef, st setting, stall int, o *outcome, hung st
 	if strings.HasSuffix(strings.Split(op.Name, "/")[0], ".Open") {
 		slack += grace + 3*u // a failed open closes the channel, which waits for the read loop
 	}
-	mixed := lo != hi || op.ErrClass == "privilege|timeout" || op.Name == "network.SendConfigs"
+	mixed := lo != hi || op.ErrClass == "privilege|timeout" || strings.HasPrefix(op.Name, "network.SendConfigs")
 	complete := stall >= curFacts.Lmin
 	if st.override == 0 {
 		// maximum timeout: must still be blocked long after the connection-wide timeout, and finish
